@@ -4,6 +4,7 @@ mod c06;
 mod c12;
 mod c12_lits;
 mod c13;
+mod c13_maps;
 
 use pvcore::run::*;
 use pvcore::sweep::*;
